@@ -81,6 +81,11 @@ fn parse_args() -> Args {
 }
 
 fn main() {
+    // interpreter / sanitizer tier: tiny workload, no rlimits, no files (runs under Miri)
+    if std::env::args().nth(1).as_deref() == Some("sanit") {
+        let seed = std::env::args().nth(2).and_then(|s| s.parse().ok()).unwrap_or(1);
+        std::process::exit(props::sanit::run(seed));
+    }
     let args = parse_args();
     panicmon::install();
     // CPU watchdog of last resort (a pure CPU loop that no stream budget can cut)
